@@ -591,11 +591,14 @@ def check_reasons(pr, t, status, reasons):
     for p in reasons['missingDep']:
         if not (p in d['deps'] and fname(p) not in files):
             bad.append('missing_file_dep %s' % p)
+    prev = None if (ck_changed or rec['deps:'] is None) else set(int(x[1:]) for x in rec['deps:'])
     for p in reasons['changed']:
         ok = p in d['deps'] and fname(p) in files
         if ok:
             st = None if ck_changed else rec['files'].get(p)
-            if st is not None:
+            # true when: no saved state, or not a dependency of the last recorded execution (a stale state of an
+            # older one may survive in the record), or modified by the checker's rule w.r.t. the saved state
+            if st is not None and not (prev is not None and p not in prev):
                 stt = before['stat'][p]
                 if pr['checker'] == 'md5' and isinstance(st, (list, tuple)):
                     ok = (stt['mtime'] != st[0]) and (stt['size'] != st[1] or stt['md5'] != st[2])
@@ -609,7 +612,6 @@ def check_reasons(pr, t, status, reasons):
         a, b = reasons['checkerChanged']
         if not (ck_changed and statuslib.CK_CLASS.get(rec['checker:']) == a and statuslib.CK_MODEL[pr['checker']] == b):
             bad.append('checker_changed')
-    prev = None if (ck_changed or rec['deps:'] is None) else set(int(x[1:]) for x in rec['deps:'])
     for p in reasons['added']:
         if not (prev is not None and p in d['deps'] and p not in prev):
             bad.append('added_file_dep %s' % p)
